@@ -43,8 +43,11 @@ def range_number_from_counter(e, label, counter):
     number = counter.get(key, None)
 
     if number is None:
-        number = 1 + sum(1 for o in counter.keys() if o[0] == label)
-        assert number is not None
+        # the smallest number that no open range with this label is using
+        used = set(n for o, n in counter.items() if o[0] == label)
+        number = 1
+        while number in used:
+            number += 1
         counter[key] = number
 
     else:
@@ -202,30 +205,14 @@ def make_note_el(note, dur, voice, counter, n_of_staves):
         )
 
     for tuplet in note.tuplet_stops:
-        tuplet_key = ("tuplet", tuplet)
-        number = counter.get(tuplet_key, None)
-
-        if number is None:
-            number = 1
-            counter[tuplet_key] = number
-
-        else:
-            del counter[tuplet_key]
+        number = range_number_from_counter(tuplet, "tuplet", counter)
 
         notations.append(
             etree.Element("tuplet", number="{}".format(number), type="stop")
         )
 
     for tuplet in note.tuplet_starts:
-        tuplet_key = ("tuplet", tuplet)
-        number = counter.get(tuplet_key, None)
-
-        if number is None:
-            number = 1 + sum(1 for o in counter.keys() if o[0] == "tuplet")
-            counter[tuplet_key] = number
-
-        else:
-            del counter[tuplet_key]
+        number = range_number_from_counter(tuplet, "tuplet", counter)
 
         tuplet_e = etree.Element("tuplet", number="{}".format(number), type="start")
         if (
